@@ -367,5 +367,650 @@ theorem typeString_setBits_arr (t : Info) (b : Int) (h : ∀ k c b', t ≠ .base
   | arr sl n bits e => cases sl <;> simp [Info.setBits, typeString]
   | ptr b' e => simp [Info.setBits, typeString]
 
+/-! ## Round trip: reader lemmas -/
+
+/-- Reader states in which `parseString`'s single `Read` is a full read: the
+repaired variant, or everything already sits in the bufio buffer. -/
+def Good (fx : Fix) (rd : Rd) : Prop := fx.readFullStrings = true ∨ rd.rest = []
+
+theorem read_rest (cfg : RdCfg) (n : Nat) (rd : Rd) (d : Bytes) (rd' : Rd)
+    (h : rd.read cfg n = some (d, rd')) (hr : rd.rest = []) : rd'.rest = [] := by
+  unfold Rd.read at h
+  cases hb : rd.buf with
+  | nil => rw [hb, hr] at h; simp at h
+  | cons a t =>
+    rw [hb] at h
+    simp only [Option.some.injEq, Prod.mk.injEq] at h
+    rw [← h.2]; exact hr
+
+theorem readFullAux_rest (cfg : RdCfg) : ∀ (f n : Nat) (rd : Rd) (d : Bytes) (rd' : Rd),
+    Rd.readFullAux cfg f n rd = some (d, rd') → rd.rest = [] → rd'.rest = [] := by
+  intro f
+  induction f with
+  | zero =>
+    intro n rd d rd' h hr
+    cases n with
+    | zero => simp only [Rd.readFullAux, Option.some.injEq, Prod.mk.injEq] at h; rw [← h.2]; exact hr
+    | succ n => simp [Rd.readFullAux] at h
+  | succ f ih =>
+    intro n rd d rd' h hr
+    cases n with
+    | zero => simp only [Rd.readFullAux, Option.some.injEq, Prod.mk.injEq] at h; rw [← h.2]; exact hr
+    | succ n =>
+      simp only [Rd.readFullAux] at h
+      split at h
+      · simp at h
+      · rename_i d1 rd1 h1
+        split at h
+        · simp at h
+        · rename_i d2 rd2 h2
+          simp only [Option.some.injEq, Prod.mk.injEq] at h
+          rw [← h.2]
+          exact ih _ _ _ _ h2 (read_rest _ _ _ _ _ h1 hr)
+
+theorem readN_prefix (cfg : RdCfg) (fx : Fix) (n : Nat) (rd : Rd) (bs tail : Bytes)
+    (hall : rd.all = bs ++ tail) (hn : bs.length = n) :
+    ∃ rd', readN cfg n rd = .ok (bs, rd') ∧ rd'.all = tail ∧ (Good fx rd → Good fx rd') := by
+  obtain ⟨rd', h1, h2⟩ := readFull_ok cfg n rd (by rw [hall]; simp; omega)
+  refine ⟨rd', ?_, ?_, ?_⟩
+  · simp only [readN, h1, hall]
+    congr 2
+    rw [List.take_append_of_le_length (by omega), List.take_of_length_le (by omega)]
+  · rw [h2, hall, List.drop_append_of_le_length (by omega), List.drop_of_length_le (by omega)]; simp
+  · intro hg
+    rcases hg with hg | hg
+    · exact Or.inl hg
+    · exact Or.inr (readFullAux_rest cfg _ _ _ _ _ h1 hg)
+
+theorem u32_length (n : Nat) : (u32 n).length = 4 := rfl
+
+theorem be32_u32 (n : Nat) (h : n < 4294967296) : be32 (u32 n) = n := by
+  simp only [u32, be32, UInt8.toNat_ofNat']
+  omega
+
+theorem readU32_prefix (cfg : RdCfg) (fx : Fix) (v : Nat) (hv : v < 4294967296) (rd : Rd) (tail : Bytes)
+    (hall : rd.all = u32 v ++ tail) :
+    ∃ rd', readU32 cfg rd = .ok (v, rd') ∧ rd'.all = tail ∧ (Good fx rd → Good fx rd') := by
+  obtain ⟨rd', h1, h2, h3⟩ := readN_prefix cfg fx 4 rd (u32 v) tail hall rfl
+  exact ⟨rd', by simp [readU32, h1, be32_u32 v hv], h2, h3⟩
+
+theorem cap_lt : cap < 4294967296 := by decide
+
+theorem declare_ok (n : Nat) (h : n ≤ cap) : declare n = .ok () := by
+  simp [declare]; omega
+
+theorem parseString_prefix (cfg : RdCfg) (fx : Fix) (s : Bytes) (hs : s.length ≤ cap) (rd : Rd)
+    (tail : Bytes) (hall : rd.all = marshalString s ++ tail) (hg : Good fx rd) :
+    ∃ rd', parseString cfg fx rd = .ok (s, rd') ∧ rd'.all = tail ∧ Good fx rd' := by
+  have hc := cap_lt
+  simp only [marshalString, List.append_assoc] at hall
+  obtain ⟨rd1, h1, h2, h3⟩ := readU32_prefix cfg fx s.length (by omega) rd (s ++ tail) hall
+  have hg1 := h3 hg
+  simp only [parseString, h1, declare_ok _ hs]
+  by_cases h0 : s.length = 0
+  · have : s = [] := List.length_eq_zero_iff.1 h0
+    subst this
+    simp only [List.length_nil, if_true]
+    exact ⟨rd1, rfl, by simpa using h2, hg1⟩
+  · simp only [h0, if_false]
+    by_cases hf : fx.readFullStrings = true
+    · simp only [hf, if_true]
+      obtain ⟨rd2, e1, e2⟩ := readFull_ok cfg s.length rd1 (by rw [h2]; simp)
+      refine ⟨rd2, ?_, ?_, Or.inl hf⟩
+      · rw [e1, h2]; simp
+      · rw [e2, h2]; simp
+    · simp only [hf]
+      have hr : rd1.rest = [] := by
+        rcases hg1 with hg1 | hg1
+        · exact absurd hg1 hf
+        · exact hg1
+      have hbuf : rd1.buf = s ++ tail := by
+        rw [← h2, Rd.all, hr, List.append_nil]
+      have hne : rd1.buf ≠ [] := by
+        rw [hbuf]; intro hx
+        have := List.append_eq_nil_iff.1 hx
+        exact h0 (by simp [this.1])
+      unfold Rd.read
+      cases hb : rd1.buf with
+      | nil => exact absurd hb hne
+      | cons a t =>
+        simp only
+        rw [← hb, hbuf]
+        refine ⟨⟨(s ++ tail).drop s.length, rd1.rest, rd1.k⟩, ?_, ?_, Or.inr hr⟩
+        · simp
+        · simp [Rd.all, hr]
+
+theorem read1_prefix (cfg : RdCfg) (fx : Fix) (b : UInt8) (rd : Rd) (tail : Bytes)
+    (hall : rd.all = b :: tail) :
+    ∃ rd', rd.read cfg 1 = some ([b], rd') ∧ rd'.all = tail ∧ (Good fx rd → Good fx rd') := by
+  cases hr : rd.read cfg 1 with
+  | none =>
+    have := (read_none_iff cfg 1 rd).1 hr
+    rw [hall] at this; simp at this
+  | some p =>
+    obtain ⟨d, rd'⟩ := p
+    obtain ⟨r1, r2, r3⟩ := read_some cfg 1 rd d rd' (by omega) hr
+    match d, r1, r2 with
+    | [x], _, _ =>
+      rw [hall] at r3
+      simp only [List.cons_append, List.nil_append, List.cons.injEq] at r3
+      obtain ⟨hx, ht⟩ := r3
+      subst hx
+      refine ⟨rd', rfl, ht, ?_⟩
+      intro hg
+      rcases hg with hg | hg
+      · exact Or.inl hg
+      · exact Or.inr (read_rest _ _ _ _ _ hr hg)
+    | _ :: _ :: _, _, r2 => simp at r2
+
+/-! ## Round trip: I/O arguments -/
+
+mutual
+/-- An argument the native format can carry and read back: name and type text
+at most `cap` bytes, type in the I/O grammar, `0 ≤ Bits ≤ cap`, at most `cap`
+compound members, recursively. -/
+def IOArg.valid : IOArg → Bool
+  | .mk name ty comp =>
+    decide (name.length ≤ cap) && ty.inGrammar && decide ((typeString ty).length ≤ cap) &&
+    decide (0 ≤ ty.bits) && decide (ty.bits ≤ cap) && decide (comp.length ≤ cap) && IOArg.validL comp
+def IOArg.validL : List IOArg → Bool
+  | [] => true
+  | a :: as => a.valid && IOArg.validL as
+end
+
+mutual
+/-- What the parser returns for the argument: the type as `types.Parse` reads
+its text, `Bits` as stored. -/
+def IOArg.norm : IOArg → IOArg
+  | .mk name ty comp => .mk name (ty.norm.setBits ty.bits) (IOArg.normL comp)
+def IOArg.normL : List IOArg → List IOArg
+  | [] => []
+  | a :: as => a.norm :: IOArg.normL as
+end
+
+mutual
+def IOArg.size : IOArg → Nat
+  | .mk _ _ comp => 1 + IOArg.sizeL comp
+def IOArg.sizeL : List IOArg → Nat
+  | [] => 0
+  | a :: as => 1 + a.size + IOArg.sizeL as
+end
+
+theorem normL_length : ∀ (as : List IOArg), (IOArg.normL as).length = as.length
+  | [] => rfl
+  | a :: as => by simp [IOArg.normL, normL_length as]
+
+theorem u32i_nonneg (b : Int) (h0 : 0 ≤ b) (h1 : b < 4294967296) : u32i b = u32 b.toNat := by
+  unfold u32i
+  congr 1
+  omega
+
+mutual
+theorem parseIOArg_rt (cfg : RdCfg) (fx : Fix) : ∀ (a : IOArg) (f : Nat) (rd : Rd) (tail : Bytes),
+    a.valid = true → a.size ≤ f → rd.all = marshalIOArg a ++ tail → Good fx rd →
+    ∃ rd', parseIOArg cfg fx f rd = .ok (a.norm, rd') ∧ rd'.all = tail ∧ Good fx rd'
+  | .mk name ty comp, f, rd, tail, hv, hf, hall, hg => by
+    have hc := cap_lt
+    simp only [IOArg.valid, Bool.and_eq_true, decide_eq_true_eq] at hv
+    obtain ⟨⟨⟨⟨⟨⟨v1, v2⟩, v3⟩, v4⟩, v5⟩, v6⟩, v7⟩ := hv
+    simp only [IOArg.size] at hf
+    cases f with
+    | zero => omega
+    | succ f =>
+      simp only [marshalIOArg, List.append_assoc] at hall
+      obtain ⟨rd1, e1, a1, g1⟩ := parseString_prefix cfg fx name v1 rd _ hall hg
+      obtain ⟨rd2, e2, a2, g2⟩ := parseString_prefix cfg fx (typeString ty) v3 rd1 _ a1 g1
+      rw [u32i_nonneg ty.bits v4 (by omega)] at a2
+      obtain ⟨rd3, e3, a3, g3'⟩ := readU32_prefix cfg fx ty.bits.toNat (by omega) rd2 _ a2
+      have g3 := g3' g2
+      obtain ⟨rd4, e4, a4, g4'⟩ := readU32_prefix cfg fx comp.length (by omega) rd3 _ a3
+      have g4 := g4' g3
+      obtain ⟨rd5, e5, a5, g5⟩ := parseIOArgs_rt cfg fx comp f rd4 tail v7 (by omega) a4 g4
+      refine ⟨rd5, ?_, a5, g5⟩
+      simp only [parseIOArg, e1, e2, e3, e4, e5, declare_ok _ v6, typeParse_typeString ty v2,
+        declare_ok ty.bits.toNat (by omega), IOArg.norm]
+      congr 4
+      omega
+theorem parseIOArgs_rt (cfg : RdCfg) (fx : Fix) : ∀ (as : List IOArg) (f : Nat) (rd : Rd) (tail : Bytes),
+    IOArg.validL as = true → IOArg.sizeL as ≤ f → rd.all = marshalIOArgs as ++ tail → Good fx rd →
+    ∃ rd', parseIOArgs cfg fx f as.length rd = .ok (IOArg.normL as, rd') ∧ rd'.all = tail ∧ Good fx rd'
+  | [], f, rd, tail, _, _, hall, hg => by
+    simp only [marshalIOArgs, List.nil_append] at hall
+    exact ⟨rd, by cases f <;> simp [parseIOArgs, IOArg.normL], hall, hg⟩
+  | a :: as, f, rd, tail, hv, hf, hall, hg => by
+    simp only [IOArg.validL, Bool.and_eq_true] at hv
+    simp only [IOArg.sizeL] at hf
+    cases f with
+    | zero => omega
+    | succ f =>
+      simp only [marshalIOArgs, List.append_assoc] at hall
+      obtain ⟨rd1, e1, a1, g1⟩ := parseIOArg_rt cfg fx a f rd _ hv.1 (by omega) hall hg
+      obtain ⟨rd2, e2, a2, g2⟩ := parseIOArgs_rt cfg fx as f rd1 tail hv.2 (by omega) a1 g1
+      exact ⟨rd2, by simp [parseIOArgs, e1, e2, IOArg.normL], a2, g2⟩
+end
+
+/-! ## Round trip: gates -/
+
+/-- `ParseMPCLC` stores `Input1 = 0` for an INV gate (the format has no such
+field); nothing reads it. -/
+def normG (g : Gate) : Gate :=
+  match g.op with
+  | .inv => ⟨.inv, g.in0, 0, g.out⟩
+  | _ => g
+
+theorem opOfCode_opCode (op : Op) : opOfCode (opCode op) = some op := by cases op <;> decide
+
+theorem needSeen_of_seenFn (s : Store Bool) (w : Nat) (h : seenFn s w = true) : needSeen s w = .ok () := by
+  simp only [seenFn, Bool.and_eq_true, decide_eq_true_eq] at h
+  simp [needSeen, seenGet, h.1, h.2]
+
+theorem take4_u32 (a : Nat) (r : Bytes) : (u32 a ++ r).take 4 = u32 a := by simp [u32]
+theorem drop4_u32 (a : Nat) (r : Bytes) : (u32 a ++ r).drop 4 = r := by simp [u32]
+
+/-- One INV iteration, from the facts about its reads. -/
+theorem gateLoop_inv_eq (cfg : RdCfg) (fx : Fix) (ng f gate in0 out : Nat) (seen : Store Bool)
+    (rd rd1 rd2 : Rd) (b : Bytes)
+    (e1 : rd.read cfg 1 = some ([4], rd1))
+    (k1 : be32 (b.take 4) = in0) (k2 : be32 (b.drop 4) = out)
+    (hn0 : needSeen seen in0 = .ok ())
+    (hset : seenSet seen out = .ok (seen.set out true))
+    (hng2 : ¬ ng ≤ gate)
+    (e2 : readN cfg 8 rd1 = .ok (b, rd2)) :
+    gateLoop cfg fx ng (f + 1) gate seen rd =
+      match gateLoop cfg fx ng f (gate + 1) (seen.set out true) rd2 with
+      | .error e => .error e
+      | .ok (gs, seen) => .ok (⟨.inv, in0, 0, out⟩ :: gs, seen) := by
+  have hguard : ¬ (fx.guardGates = true ∧ ng ≤ gate) := fun h => hng2 h.2
+  rw [gateLoop]
+  simp only [e1]
+  have o4 : opOfCode 4 = some Op.inv := by decide
+  simp only [List.headD_cons, o4]
+  rw [if_neg hguard, e2]
+  dsimp only
+  rw [k1, k2]
+  rw [hn0]
+  dsimp only
+  rw [hset]
+  dsimp only
+  rw [if_neg hng2]
+  cases gateLoop cfg fx ng f (gate + 1) (seen.set out true) rd2 with
+  | error e => simp
+  | ok p => simp
+
+/-- One binary-gate iteration, from the facts about its reads. -/
+theorem gateLoop_bin_eq (cfg : RdCfg) (fx : Fix) (ng f gate in0 in1 out : Nat) (seen : Store Bool)
+    (rd rd1 rd2 : Rd) (b : Bytes) (op : Op) (hop : op.binary = true) (c : UInt8)
+    (hoc : opOfCode c = some op)
+    (e1 : rd.read cfg 1 = some ([c], rd1))
+    (k1 : be32 (b.take 4) = in0) (k2 : be32 ((b.drop 4).take 4) = in1) (k3 : be32 (b.drop 8) = out)
+    (hn0 : needSeen seen in0 = .ok ()) (hn1 : needSeen seen in1 = .ok ())
+    (hset : seenSet seen out = .ok (seen.set out true))
+    (hng2 : ¬ ng ≤ gate)
+    (e2 : readN cfg 12 rd1 = .ok (b, rd2)) :
+    gateLoop cfg fx ng (f + 1) gate seen rd =
+      match gateLoop cfg fx ng f (gate + 1) (seen.set out true) rd2 with
+      | .error e => .error e
+      | .ok (gs, seen) => .ok (⟨op, in0, in1, out⟩ :: gs, seen) := by
+  have hguard : ¬ (fx.guardGates = true ∧ ng ≤ gate) := fun h => hng2 h.2
+  cases op <;> simp [Op.binary] at hop <;>
+    (rw [gateLoop]; simp only [e1, List.headD_cons, hoc]; rw [if_neg hguard, e2]; dsimp only;
+     rw [k1, k2, k3, hn0]; dsimp only; rw [hn1]; dsimp only; rw [hset]; dsimp only; rw [if_neg hng2]) <;>
+    (cases gateLoop cfg fx ng f (gate + 1) (seen.set out true) rd2 with
+     | error e => simp
+     | ok p => simp)
+
+theorem gateLoop_step_inv (cfg : RdCfg) (fx : Fix) (ng : Nat) (in0 in1 out : Nat) (f gate : Nat)
+    (seen : Store Bool) (rd : Rd) (rest : Bytes)
+    (hall : rd.all = marshalGate ⟨.inv, in0, in1, out⟩ ++ rest) (hng : gate < ng)
+    (hsz : seen.size ≤ 4294967296) (w1 : seenFn seen in0 = true) (w5 : out < seen.size) :
+    ∃ rd2, rd2.all = rest ∧
+      gateLoop cfg fx ng (f + 1) gate seen rd =
+        match gateLoop cfg fx ng f (gate + 1) (seen.set out true) rd2 with
+        | .error e => .error e
+        | .ok (gs, seen) => .ok (⟨.inv, in0, 0, out⟩ :: gs, seen) := by
+  have hng2 : ¬ ng ≤ gate := by omega
+  have hn0 := needSeen_of_seenFn seen in0 w1
+  have hset : seenSet seen out = .ok (seen.set out true) := by simp [seenSet, w5]
+  have hi0 : in0 < 4294967296 := by
+    simp only [seenFn, Bool.and_eq_true, decide_eq_true_eq] at w1; omega
+  have ho : out < 4294967296 := by omega
+  have hall' : rd.all = 4 :: ((u32 in0 ++ u32 out) ++ rest) := by
+    rw [hall]; simp [marshalGate, opCode]
+  obtain ⟨rd1, e1, a1, _⟩ := read1_prefix cfg fx 4 rd _ hall'
+  obtain ⟨rd2, e2, a2, _⟩ := readN_prefix cfg fx 8 rd1 (u32 in0 ++ u32 out) _ a1 rfl
+  have k1 : be32 ((u32 in0 ++ u32 out).take 4) = in0 := by rw [take4_u32, be32_u32 _ hi0]
+  have k2 : be32 ((u32 in0 ++ u32 out).drop 4) = out := by rw [drop4_u32, be32_u32 _ ho]
+  exact ⟨rd2, a2, gateLoop_inv_eq cfg fx ng f gate in0 out seen rd rd1 rd2 _ e1 k1 k2 hn0 hset hng2 e2⟩
+
+theorem gateLoop_step_bin (cfg : RdCfg) (fx : Fix) (ng : Nat) (op : Op) (hop : op.binary = true)
+    (in0 in1 out : Nat) (f gate : Nat)
+    (seen : Store Bool) (rd : Rd) (rest : Bytes)
+    (hall : rd.all = marshalGate ⟨op, in0, in1, out⟩ ++ rest) (hng : gate < ng)
+    (hsz : seen.size ≤ 4294967296) (w1 : seenFn seen in0 = true) (w2 : seenFn seen in1 = true)
+    (w5 : out < seen.size) :
+    ∃ rd2, rd2.all = rest ∧
+      gateLoop cfg fx ng (f + 1) gate seen rd =
+        match gateLoop cfg fx ng f (gate + 1) (seen.set out true) rd2 with
+        | .error e => .error e
+        | .ok (gs, seen) => .ok (⟨op, in0, in1, out⟩ :: gs, seen) := by
+  have hng2 : ¬ ng ≤ gate := by omega
+  have hn0 := needSeen_of_seenFn seen in0 w1
+  have hn1 := needSeen_of_seenFn seen in1 w2
+  have hset : seenSet seen out = .ok (seen.set out true) := by simp [seenSet, w5]
+  have hi0 : in0 < 4294967296 := by
+    simp only [seenFn, Bool.and_eq_true, decide_eq_true_eq] at w1; omega
+  have hi1 : in1 < 4294967296 := by
+    simp only [seenFn, Bool.and_eq_true, decide_eq_true_eq] at w2; omega
+  have ho : out < 4294967296 := by omega
+  have hall' : rd.all = opCode op :: ((u32 in0 ++ (u32 in1 ++ u32 out)) ++ rest) := by
+    rw [hall]; cases op <;> simp [marshalGate] <;> simp [Op.binary] at hop
+  obtain ⟨rd1, e1, a1, _⟩ := read1_prefix cfg fx _ rd _ hall'
+  obtain ⟨rd2, e2, a2, _⟩ := readN_prefix cfg fx 12 rd1 (u32 in0 ++ (u32 in1 ++ u32 out)) _ a1 rfl
+  have k1 : be32 ((u32 in0 ++ (u32 in1 ++ u32 out)).take 4) = in0 := by rw [take4_u32, be32_u32 _ hi0]
+  have k2 : be32 (((u32 in0 ++ (u32 in1 ++ u32 out)).drop 4).take 4) = in1 := by
+    rw [drop4_u32, take4_u32, be32_u32 _ hi1]
+  have k3 : be32 ((u32 in0 ++ (u32 in1 ++ u32 out)).drop 8) = out := by
+    have : (u32 in0 ++ (u32 in1 ++ u32 out)).drop 8 = u32 out := by simp [u32]
+    rw [this, be32_u32 _ ho]
+  exact ⟨rd2, a2, gateLoop_bin_eq cfg fx ng f gate in0 in1 out seen rd rd1 rd2 _ op hop _
+    (opOfCode_opCode op) e1 k1 k2 k3 hn0 hn1 hset hng2 e2⟩
+
+theorem gateLoop_rt (cfg : RdCfg) (fx : Fix) (ng : Nat) :
+    ∀ (gs : List Gate) (f gate : Nat) (seen : Store Bool) (rd : Rd),
+      rd.all = marshalGates gs → gs.length < f → gate + gs.length ≤ ng → seen.size ≤ 4294967296 →
+      wfFrom seen.size gs (seenFn seen) = true →
+      ∃ seen', gateLoop cfg fx ng f gate seen rd = .ok (gs.map normG, seen') := by
+  intro gs
+  induction gs with
+  | nil =>
+    intro f gate seen rd hall hf _ _ _
+    cases f with
+    | zero => simp at hf
+    | succ f =>
+      simp only [marshalGates] at hall
+      have := (read_none_iff cfg 1 rd).2 hall
+      exact ⟨seen, by simp [gateLoop, this]⟩
+  | cons g gs ih =>
+    intro f gate seen rd hall hf hng hsz hwf
+    cases f with
+    | zero => simp at hf
+    | succ f =>
+      simp only [List.length_cons] at hf hng
+      simp only [wfFrom, Bool.and_eq_true, decide_eq_true_eq] at hwf
+      obtain ⟨⟨⟨⟨⟨w1, w2⟩, w3⟩, w4⟩, w5⟩, w6⟩ := hwf
+      obtain ⟨_, hs2, hs3⟩ := seenSet_ok seen g.out (seen.set g.out true) (by simp [seenSet, w5])
+      rw [← hs3, ← hs2] at w6
+      obtain ⟨op, in0, in1, out⟩ := g
+      simp only at w1 w2 w3 w4 w5 w6 hs2
+      cases hop : op.binary with
+      | false =>
+        have : op = .inv := by cases op <;> simp [Op.binary] at hop; rfl
+        subst this
+        obtain ⟨rd2, a2, estep⟩ := gateLoop_step_inv cfg fx ng in0 in1 out f gate seen rd (marshalGates gs)
+          (by rw [hall]; rfl) (by omega) hsz w1 w5
+        obtain ⟨seen', e3⟩ := ih f (gate + 1) (seen.set out true) rd2 a2 (by omega) (by omega)
+          (by rw [hs2]; exact hsz) w6
+        exact ⟨seen', by rw [estep, e3]; rfl⟩
+      | true =>
+        obtain ⟨rd2, a2, estep⟩ := gateLoop_step_bin cfg fx ng op hop in0 in1 out f gate seen rd (marshalGates gs)
+          (by rw [hall]; rfl) (by omega) hsz w1 (by simpa [hop] using w2) w5
+        obtain ⟨seen', e3⟩ := ih f (gate + 1) (seen.set out true) rd2 a2 (by omega) (by omega)
+          (by rw [hs2]; exact hsz) w6
+        refine ⟨seen', ?_⟩
+        rw [estep, e3]
+        cases op <;> simp [Op.binary] at hop <;> rfl
+
+/-! ## Round trip: the whole native file -/
+
+/-- `ParseMPCLC` from the facts about its steps. -/
+theorem parseMPCLC_eq (cfg : RdCfg) (fx : Fix) (bytes h : Bytes) (rd0 rd1 rd2 : Rd)
+    (ng nw ni no : Nat) (ins outs : List IOArg) (seen0 seen' : Store Bool) (gs : List Gate)
+    (e0 : readN cfg 20 (Rd.init bytes) = .ok (h, rd0))
+    (k1 : be32 ((h.drop 4).take 4) = ng) (k2 : be32 ((h.drop 8).take 4) = nw)
+    (k3 : be32 ((h.drop 12).take 4) = ni) (k4 : be32 ((h.drop 16).take 4) = no)
+    (d1 : declare ng = .ok ()) (d2 : declare nw = .ok ()) (d3 : declare ni = .ok ()) (d4 : declare no = .ok ())
+    (e1 : parseIOArgs cfg fx (bytes.length + 1) ni rd0 = .ok (ins, rd1))
+    (e2 : parseIOArgs cfg fx (bytes.length + 1) no rd1 = .ok (outs, rd2))
+    (e3 : seenInit nw (ioSize ins) = .ok seen0)
+    (e4 : gateLoop cfg fx ng (bytes.length + 1) 0 seen0 rd2 = .ok (gs, seen'))
+    (hlen : gs.length = ng) (hall : allSeen seen' = true) :
+    parseMPCLC cfg fx bytes = .ok ⟨ng, nw, ins, outs, gs⟩ := by
+  unfold parseMPCLC
+  rw [e0]
+  dsimp only
+  rw [k1, k2, k3, k4, d1, d2, d3, d4]
+  dsimp only
+  rw [e1]
+  dsimp only
+  rw [e2]
+  dsimp only
+  rw [e3]
+  dsimp only
+  rw [e4]
+  dsimp only
+  rw [if_neg (by simp [hlen]), if_neg (by simp [hall])]
+
+/-- The underlying reader always delivers what is asked (`bytes.Reader`,
+regular files). -/
+def FullOracle (cfg : RdCfg) : Prop := ∀ req k, req ≤ cfg.oracle req k
+
+theorem readN_init_rest (cfg : RdCfg) (hfull : FullOracle cfg) (bytes : Bytes) (n : Nat)
+    (hn0 : 0 < n) (hn : n < cfg.bufSize) (hlen : bytes.length ≤ cfg.bufSize) (b : Bytes) (rd' : Rd)
+    (h : readN cfg n (Rd.init bytes) = .ok (b, rd')) : rd'.rest = [] := by
+  unfold readN at h
+  cases hr : (Rd.init bytes).readFull cfg n with
+  | none => simp [hr] at h
+  | some x =>
+    obtain ⟨d, r2⟩ := x
+    simp only [hr, Except.ok.injEq, Prod.mk.injEq] at h
+    obtain ⟨_, h2⟩ := h
+    subst h2
+    unfold Rd.readFull at hr
+    cases n with
+    | zero => omega
+    | succ m =>
+      simp only [Rd.readFullAux] at hr
+      split at hr
+      · simp at hr
+      · rename_i d1 rd1 h1
+        split at hr
+        · simp at hr
+        · rename_i d2 rd2 h2
+          simp only [Option.some.injEq, Prod.mk.injEq] at hr
+          rw [← hr.2]
+          refine readFullAux_rest cfg _ _ _ _ _ h2 ?_
+          unfold Rd.read at h1
+          simp only [Rd.init] at h1
+          cases hb : bytes with
+          | nil => simp [hb] at h1
+          | cons a t =>
+            rw [hb] at h1
+            have hnb : ¬ cfg.bufSize ≤ m + 1 := by omega
+            simp only [hnb, if_false, Option.some.injEq, Prod.mk.injEq] at h1
+            rw [← h1.2]
+            simp only
+            have hd : cfg.bufSize ≤ cfg.deliver cfg.bufSize 0 := by
+              have := hfull cfg.bufSize 0
+              simp only [RdCfg.deliver]; omega
+            apply List.drop_of_length_le
+            rw [← hb]; omega
+
+theorem u32i_length (i : Int) : (u32i i).length = 4 := rfl
+
+mutual
+theorem size_le_marshal : ∀ (a : IOArg), a.size + 15 ≤ (marshalIOArg a).length
+  | .mk name ty comp => by
+    have := sizeL_le_marshal comp
+    simp only [IOArg.size, marshalIOArg, marshalString, List.length_append, u32_length, u32i_length]
+    omega
+theorem sizeL_le_marshal : ∀ (as : List IOArg), IOArg.sizeL as ≤ (marshalIOArgs as).length
+  | [] => by simp [IOArg.sizeL, marshalIOArgs]
+  | a :: as => by
+    have h1 := size_le_marshal a
+    have h2 := sizeL_le_marshal as
+    simp only [IOArg.sizeL, marshalIOArgs, List.length_append]
+    omega
+end
+
+theorem gates_le_marshal : ∀ (gs : List Gate), gs.length ≤ (marshalGates gs).length
+  | [] => by simp
+  | g :: gs => by
+    have := gates_le_marshal gs
+    simp only [marshalGates, List.length_cons, List.length_append]
+    cases hop : g.op <;> simp [marshalGate, hop] <;> omega
+
+theorem setBits_bits (t : Info) (b : Int) : (t.setBits b).bits = b := by
+  cases t <;> rfl
+
+theorem ioSize_normL : ∀ (as : List IOArg), (IOArg.normL as).map (fun a => a.ty.bits) = as.map (fun a => a.ty.bits)
+  | [] => rfl
+  | (.mk n t c) :: as => by
+    have ih := ioSize_normL as
+    simp only [IOArg.normL, List.map_cons]
+    rw [ih]
+    congr 1
+    simp [IOArg.norm, IOArg.ty, setBits_bits]
+
+theorem definedAfter_normG : ∀ (gs : List Gate) (d : Nat → Bool),
+    definedAfter (gs.map normG) d = definedAfter gs d
+  | [], d => rfl
+  | g :: gs, d => by
+    have : (normG g).out = g.out := by unfold normG; split <;> rfl
+    simp only [List.map_cons, definedAfter, this]
+    exact definedAfter_normG gs _
+
+/-- A circuit the native format can carry: counts within the property's cap,
+valid I/O arguments, as many gates as declared, and the parser's own
+acceptance conditions (input bits fit the wires, every gate input defined
+before use with indices in range, every wire assigned). -/
+structure PCircuit.Valid (c : PCircuit) : Prop where
+  ngates : c.numGates = c.gates.length
+  ng_cap : c.numGates ≤ cap
+  nw_cap : c.numWires ≤ cap
+  ni_cap : c.inputs.length ≤ cap
+  no_cap : c.outputs.length ≤ cap
+  ins : IOArg.validL c.inputs = true
+  outs : IOArg.validL c.outputs = true
+  fits : ioSize c.inputs ≤ c.numWires
+  wf : wfFrom c.numWires c.gates c.toCircuit.inputDefined = true
+  assigned : ∀ w, w < c.numWires → c.toCircuit.defined w = true
+
+/-- What parsing the marshalled circuit returns. -/
+def PCircuit.norm (c : PCircuit) : PCircuit :=
+  ⟨c.numGates, c.numWires, IOArg.normL c.inputs, IOArg.normL c.outputs, c.gates.map normG⟩
+
+theorem parseMPCLC_marshal (cfg : RdCfg) (fx : Fix) (c : PCircuit) (hv : c.Valid)
+    (hg : fx.readFullStrings = true ∨
+      (FullOracle cfg ∧ (marshal c).length ≤ cfg.bufSize ∧ 20 < cfg.bufSize)) :
+    parseMPCLC cfg fx (marshal c) = .ok c.norm := by
+  have hc := cap_lt
+  obtain ⟨ng, nw, ins, outs, gs⟩ := c
+  obtain ⟨v1, v2, v3, v4, v5, v6, v7, v8, v9, v10⟩ := hv
+  simp only at v1 v2 v3 v4 v5 v6 v7 v8 v9 v10
+  let hdr : Bytes := u32 magic ++ (u32 ng ++ (u32 nw ++ (u32 ins.length ++ u32 outs.length)))
+  let rest : Bytes := marshalIOArgs ins ++ (marshalIOArgs outs ++ marshalGates gs)
+  have hb : marshal ⟨ng, nw, ins, outs, gs⟩ = hdr ++ rest := by
+    simp only [marshal, hdr, rest, List.append_assoc]
+  have hlenb : (marshal ⟨ng, nw, ins, outs, gs⟩).length =
+      20 + ((marshalIOArgs ins).length + ((marshalIOArgs outs).length + (marshalGates gs).length)) := by
+    rw [hb]; simp [hdr, rest, u32_length]; omega
+  obtain ⟨rd0, e0, a0, g0'⟩ := readN_prefix cfg fx 20 (Rd.init (marshal ⟨ng, nw, ins, outs, gs⟩)) hdr rest
+    (by simp [Rd.all, Rd.init, hb]) rfl
+  have g0 : Good fx rd0 := by
+    rcases hg with hg | ⟨hf, hl, hbs⟩
+    · exact Or.inl hg
+    · exact Or.inr (readN_init_rest cfg hf _ 20 (by omega) hbs hl _ _ e0)
+  have hI := sizeL_le_marshal ins
+  have hO := sizeL_le_marshal outs
+  have hG := gates_le_marshal gs
+  obtain ⟨rd1, e1, a1, g1⟩ := parseIOArgs_rt cfg fx ins ((marshal ⟨ng, nw, ins, outs, gs⟩).length + 1) rd0
+    (marshalIOArgs outs ++ marshalGates gs) v6 (by omega) a0 g0
+  obtain ⟨rd2, e2, a2, g2⟩ := parseIOArgs_rt cfg fx outs ((marshal ⟨ng, nw, ins, outs, gs⟩).length + 1) rd1
+    (marshalGates gs) v7 (by omega) a1 g1
+  have hio : ioSize (IOArg.normL ins) = ioSize ins := by
+    simp only [ioSize, ioSize_normL]
+  have hnlt : ¬ ((nw : Int) < ioSize (IOArg.normL ins)) := by rw [hio]; omega
+  have e3 : seenInit nw (ioSize (IOArg.normL ins)) =
+      .ok ((Array.range nw).map fun (i : Nat) => decide ((i : Int) < ioSize (IOArg.normL ins))) := by
+    simp [seenInit, hnlt]
+  obtain ⟨s1, _, s3⟩ := seenInit_ok _ _ _ e3
+  obtain ⟨seen', e4⟩ := gateLoop_rt cfg fx ng gs ((marshal ⟨ng, nw, ins, outs, gs⟩).length + 1) 0 _ rd2 a2
+    (by omega) (by omega) (by rw [s1]; omega) (by rw [s1, s3, hio]; exact v9)
+  obtain ⟨_, w2, w3⟩ := gateLoop_wf _ _ _ _ _ _ _ _ _ e4
+  have hall : allSeen seen' = true := by
+    unfold allSeen
+    rw [Array.all_eq_true]
+    intro i hi
+    have hi' : i < nw := by rw [w2, s1] at hi; exact hi
+    have := v10 i hi'
+    have hfn : seenFn seen' i = true := by
+      rw [w3, definedAfter_normG, s3, hio]; exact this
+    simp only [seenFn, hi, decide_true, Bool.true_and, Store.get, Array.getD, dite_true] at hfn
+    simpa using hfn
+  have k1 : be32 ((hdr.drop 4).take 4) = ng := by
+    simp only [hdr, drop4_u32, take4_u32]; exact be32_u32 _ (by omega)
+  have k2 : be32 ((hdr.drop 8).take 4) = nw := by
+    have : hdr.drop 8 = u32 nw ++ (u32 ins.length ++ u32 outs.length) := by simp [hdr, u32]
+    rw [this, take4_u32]; exact be32_u32 _ (by omega)
+  have k3 : be32 ((hdr.drop 12).take 4) = ins.length := by
+    have : hdr.drop 12 = u32 ins.length ++ u32 outs.length := by simp [hdr, u32]
+    rw [this, take4_u32]; exact be32_u32 _ (by omega)
+  have k4 : be32 ((hdr.drop 16).take 4) = outs.length := by
+    have : hdr.drop 16 = u32 outs.length := by simp [hdr, u32]
+    rw [this]
+    have : (u32 outs.length).take 4 = u32 outs.length := by simp [u32]
+    rw [this]; exact be32_u32 _ (by omega)
+  exact parseMPCLC_eq cfg fx _ hdr rd0 rd1 rd2 ng nw ins.length outs.length _ _ _ seen' _ e0 k1 k2 k3 k4
+    (declare_ok _ v2) (declare_ok _ v3) (declare_ok _ v4) (declare_ok _ v5) e1 e2 e3 e4
+    (by simp [v1]) hall
+
+/-! ## Writing the parsed circuit again; same function -/
+
+theorem typeString_norm_setBits (t : Info) : typeString (t.norm.setBits t.bits) = typeString t := by
+  cases t with
+  | base k c b => cases c <;> simp [Info.norm, Info.setBits, Info.bits, typeString]
+  | arr sl n bits e => cases sl <;> simp [Info.norm, Info.setBits, typeString, typeString_norm]
+  | ptr b e => simp [Info.norm, Info.setBits, typeString]
+
+mutual
+theorem marshalIOArg_norm : ∀ (a : IOArg), marshalIOArg a.norm = marshalIOArg a
+  | .mk name ty comp => by
+    simp only [IOArg.norm, marshalIOArg, typeString_norm_setBits, setBits_bits, normL_length,
+      marshalIOArgs_normL comp]
+theorem marshalIOArgs_normL : ∀ (as : List IOArg), marshalIOArgs (IOArg.normL as) = marshalIOArgs as
+  | [] => rfl
+  | a :: as => by
+    simp only [IOArg.normL, marshalIOArgs, marshalIOArg_norm a, marshalIOArgs_normL as]
+end
+
+theorem marshalGate_normG (g : Gate) : marshalGate (normG g) = marshalGate g := by
+  obtain ⟨op, a, b, c⟩ := g
+  cases op <;> rfl
+
+theorem marshalGates_normG : ∀ (gs : List Gate), marshalGates (gs.map normG) = marshalGates gs
+  | [] => rfl
+  | g :: gs => by simp only [List.map_cons, marshalGates, marshalGate_normG, marshalGates_normG gs]
+
+/-- Writing the parsed circuit gives the same bytes. -/
+theorem marshal_norm (c : PCircuit) : marshal c.norm = marshal c := by
+  simp only [PCircuit.norm, marshal, normL_length, marshalIOArgs_normL, marshalGates_normG]
+
+theorem evalPlain_normG (g : Gate) (w : Store Bool) : (normG g).evalPlain w = g.evalPlain w := by
+  obtain ⟨op, a, b, c⟩ := g
+  cases op <;> rfl
+
+theorem evalPlainGates_normG : ∀ (gs : List Gate) (w : Store Bool),
+    evalPlainGates (gs.map normG) w = evalPlainGates gs w
+  | [], w => rfl
+  | g :: gs, w => by
+    simp only [evalPlainGates, List.map_cons, List.foldl_cons, evalPlain_normG]
+    exact evalPlainGates_normG gs _
+
+/-- The parsed circuit computes the same function. -/
+theorem compute_norm (c : PCircuit) (x : List Bool) :
+    c.norm.toCircuit.compute x = c.toCircuit.compute x := by
+  simp only [Circuit.compute, Circuit.outputs, Circuit.plainEval, PCircuit.toCircuit, PCircuit.norm,
+    ioSize, ioSize_normL, evalPlainGates_normG]
+
 end Fmt
 end Mpc
